@@ -7,6 +7,10 @@ From Coq Require Import ZArith List Bool String Ascii Arith.
 From LV Require Import Base.Prelude Lex.LexerBase Gen.LexerSortKey Lex.Lexer.
 Import ListNotations.
 
+(* cheap spellings of integer literals for the generated case files *)
+Definition zn (n : nat) : Z := Z.of_nat n.
+Definition zm (n : nat) : Z := Z.opp (Z.of_nat n).
+
 Fixpoint assoc_nat (k : string) (l : list (string * nat)) : option nat :=
   match l with
   | [] => None
